@@ -11,6 +11,7 @@ import CatiiProofs.ColumnStack
 import CatiiProofs.Reindexed
 import CatiiProofs.Sliced
 import CatiiProofs.CollapsedDense
+import CatiiProofs.ReindexedUnique
 /-!
 # C06 — index operations track NumPy on the dense array over any history
 
@@ -283,6 +284,12 @@ theorem column_stack_is_numpy_column_stack (first : IIndex) (tl : List IIndex) (
   columnStack_refines first tl newCommon r n hall h
 
 /-! ### the forced queries -/
+
+/-- `reindexed(..., assume_unique=True)`: on a well-formed index the promise "no row is merged twice" always holds, and
+the option changes nothing — same result (hence same dense array, same well-formedness) as without it -/
+theorem reindexed_assume_unique_changes_nothing (i : IIndex) (h : WF i) (mapping : Option (List (Int × Int)))
+    (shift : Bool) : reindexed i mapping shift true = reindexed i mapping shift false :=
+  reindexed_assume_unique i h mapping shift
 
 /-- `collapsed(precedence, mapping)`: "each row gets the first listed value present in it, else the last listed" —
 `rowHas i mp r p` says that some cell of row `r` holds `p` after the (optional) mapping.  Holds for every well-formed
